@@ -1,4 +1,4 @@
-(* DecideLoops.v — translated code with a range loop (gen/decide.go: DRange):
+(* GenericSrc.v — translated code with a range loop (gen/decide.go: DRange):
 
      util/strings.go        StringContainsAnySubStrs   vs  Generic.contains_any_substr   (C13)
      response/response.go   Response.Record            vs  Generic.record / failed_with  (C13)
@@ -6,20 +6,11 @@
    The loop runs over a slice of unbounded length, so "for every input" is an induction over the
    list, not a case analysis: the loop variable is bound to its index, the test
    `strings.Contains(s, ss)` is answered from the element at that index. *)
-From Scrapli Require Import Bytes Generic DecideLang GeneratedSkel.
+From Scrapli Require Import Bytes Generic DecideLang DecideLemmas GeneratedSkel.
 From Coq Require Import String List Bool Arith Lia.
 Import ListNotations.
 Open Scope nat_scope.
 Open Scope string_scope.
-
-Lemma unary_length : forall i, String.length (unary i) = i.
-Proof. induction i as [|i IH]; cbn [unary String.length]; [reflexivity | now rewrite IH]. Qed.
-
-Lemma exec_range_then : forall f env v lst body rest s,
-  exec (S f) env (DRange v lst body :: rest) s
-  = (fun r => match r with Running s' => exec f env rest s' | x => x end)
-      (range_loop (exec f env body) v (e_len env lst) 0 s).
-Proof. reflexivity. Qed.
 
 (* ---------- StringContainsAnySubStrs ---------- *)
 
@@ -374,30 +365,6 @@ Lemma send_commands_code_shape : exists pre post,
              DIf (DNot (DEq "err" "nil")) [DReturn "nil, err"] []; DCall "m.AppendResponse(r)"; DReturn "m, nil"].
 Proof. do 2 eexists. split; [reflexivity|]. split; reflexivity. Qed.
 
-(* one-statement steps of the interpreter (kept as lemmas so that proofs never unfold [exec] on a
-   whole function body) *)
-Definition cont (f : nat) (env : denv) (rest : list dstmt) (r : dres) : dres :=
-  match r with Running s' => exec f env rest s' | x => x end.
-Lemma exec_step_assign : forall f env k v rest s, exec (S f) env (DAssign k v :: rest) s = exec f env rest ((k, v) :: s)%list.
-Proof. reflexivity. Qed.
-Lemma exec_step_call : forall f env c rest s, exec (S f) env (DCall c :: rest) s = exec f env rest (("!call", c) :: s)%list.
-Proof. reflexivity. Qed.
-Lemma exec_step_return : forall f env v rest s, exec (S f) env (DReturn v :: rest) s = Returned s v.
-Proof. reflexivity. Qed.
-Lemma exec_step_nil : forall f env s, exec (S f) env []%list s = Running s.
-Proof. reflexivity. Qed.
-Lemma exec_step_if : forall f env c t e rest s,
-  exec (S f) env (DIf c t e :: rest) s
-  = match eval env s c with
-    | Some true => cont f env rest (exec f env t s)
-    | Some false => cont f env rest (exec f env e s)
-    | None => Stuck
-    end.
-Proof. intros. cbn [exec]. destruct (eval env s c) as [[|]|]; reflexivity. Qed.
-Lemma exec_step_range : forall f env v lst body rest s,
-  exec (S f) env (DRange v lst body :: rest) s
-  = cont f env rest (range_loop (exec f env body) v (e_len env lst) 0 s).
-Proof. reflexivity. Qed.
 
 (* THE TIE: for every non-empty command list and every pattern of failed responses, SendCommands as
    translated from the source on this run transmits exactly as many commands as the model's loop
@@ -544,3 +511,21 @@ Proof.
   { destruct st' as [|[k1 v1] [|[k2 v2] st2]]; reflexivity. }
   rewrite Hs, Ho. cbn [outs]. now rewrite app_nil_r, rev_involutive.
 Qed.
+
+(* every test the translated code makes is one the environment above was written for (an unknown
+   equality would otherwise evaluate to false without notice) *)
+Definition response_record_known : list string := "s == """"" :: nil.
+Lemma response_record_tests_known : tests_known response_record_code response_record_known = true.
+Proof. vm_compute. reflexivity. Qed.
+
+(* every test the translated code makes is one the environment above was written for (an unknown
+   equality would otherwise evaluate to false without notice) *)
+Definition append_response_known : list string := "re == nil" :: "mr.Failed == nil" :: "ok" :: nil.
+Lemma append_response_tests_known : tests_known append_response_code append_response_known = true.
+Proof. vm_compute. reflexivity. Qed.
+
+(* every test the translated code makes is one the environment above was written for (an unknown
+   equality would otherwise evaluate to false without notice) *)
+Definition send_command_known : list string := "len(driverOpts.FailedWhenContains) == 0" :: "err == nil" :: nil.
+Lemma send_command_tests_known : tests_known send_command_code send_command_known = true.
+Proof. vm_compute. reflexivity. Qed.
